@@ -29,7 +29,8 @@ FLOORS = {'snapshots_compared': 1500, 'effective_option_cases': 1000,
           'warnoptions_cases': 200,
           'application_traceback_functions': 200,
           'application_trace_hook_under_coverage': 60,
-          'tests_clearing_the_trace_hook_under_coverage': 40}
+          'tests_clearing_the_trace_hook_under_coverage': 40,
+          'nested_runs': 150}
 BATCH_TIMEOUT = 600
 
 OPTS = ['gc', 'gcopt', 'coverage', 'profile', 'buffer', 'warnings', 'pm']
@@ -179,6 +180,28 @@ def run_case(case):
         used_hooks = {'ph': rng.choice(['setUp', 'body', 'tearDown']),
                       'do': 'use_hooks', 'which': which, 'how': how}
         rng.choice([t0, t1, t2])['actions'].append(used_hooks)
+    # a fifth of the runs: one of the tests runs the test runner itself,
+    # in-process, with state-changing options of its own; the state it must
+    # put back is the outer run's (vworld_rt.nested_run compares around the
+    # inner run, common.judge_nested reads the result)
+    nested = None
+    if rng.random() < 0.2:
+        inner = []
+        for words in (['--gc', str(rng.choice([0, 300, 777]))],
+                      ['--gc', '321', '--gc', '7'],
+                      ['-G', rng.choice(['DEBUG_STATS',
+                                         'DEBUG_UNCOLLECTABLE'])],
+                      ['--coverage', 'COVDIR'], ['--buffer'], ['-v'],
+                      ['--profile', 'cProfile']):
+            if rng.random() < 0.4:
+                if words[0] == '--profile' and 'profile' in subset:
+                    continue    # CPython allows one active profiler only
+                if words[0] == '--gc' and '--gc' in inner:
+                    continue
+                inner += words
+        nested = {'ph': 'body', 'do': 'nested_run', 'argv': inner,
+                  'fail': rng.random() < 0.3}
+        rng.choice([t0, t2])['actions'].append(nested)
     plan = {}
     opts = {'verbose': rng.randint(0, 2)}
     if ending in ('failing', 'stop'):
@@ -243,6 +266,13 @@ def run_case(case):
     if 'pm' in subset:
         argv += ['-D']
         stdin = ScriptedStdin()
+    if nested:
+        nested['argv'] = [os.path.join(scratch, 'inner-cov')
+                          if x == 'COVDIR' else x for x in nested['argv']]
+        if '--profile' in nested['argv']:
+            nested['argv'] += ['--profile-directory',
+                               os.path.join(scratch, 'inner-prof')]
+            os.makedirs(os.path.join(scratch, 'inner-prof'), exist_ok=True)
     spec = gen.simple_world(prefix, layers, {'Base': [t0, t1, t2]})
     if ending.startswith('unit_'):
         node = {'t': 'unit', 'name': 'UnitU0', 'layer': 'Base',
@@ -355,6 +385,7 @@ def run_case(case):
         del gc.garbage[gc_garbage_before:]
         vworld.destroy(scratch)
     C('snapshots_compared')
+    common.judge_nested(w.events, V, C)
     if pre_tb:
         C('application_traceback_functions')
     if pre_hooks:
